@@ -36,11 +36,12 @@ def w_size_tables(job):
     best attainable similarity more than 1e-4 below the threshold must not be listed."""
     meas, N = job['meas'], job['N']
     pres = PRESENTATIONS[job.get('pres', 0)]
+    lsizes = job.get('lsizes') or list(range(1, N + 1))
     if meas == 'EDIT_DISTANCE':       # one 1-gram per character
-        L = mkframe(['a' * n for n in range(1, N + 1)], pres, prefix='l')
+        L = mkframe(['a' * n for n in lsizes], pres, prefix='l')
         R = mkframe(['b' * n for n in range(1, N + 1)], pres, prefix='r')
     else:
-        L = mkframe([sized(n, 'l') for n in range(1, N + 1)], pres, prefix='l')
+        L = mkframe([sized(n, 'l') for n in lsizes], pres, prefix='l')
         R = mkframe([sized(n, 'r') for n in range(1, N + 1)], pres, prefix='r')
     viol = []
     nviol = cases = nontrivial = calls = 0
@@ -53,9 +54,9 @@ def w_size_tables(job):
         calls += 1
         got, _ = pairs_of(out, L, R)
         cnt['listed'] += len(got)
-        for i in range(N):
+        for i in range(len(lsizes)):
             for j in range(N):
-                m, n = i + 1, j + 1
+                m, n = lsizes[i], j + 1
                 cases += 1
                 if meas == 'EDIT_DISTANCE':
                     mustdrop = abs(m - n) > t
@@ -248,6 +249,11 @@ def layers(tier):
         for c in chunks(ts, 16 if quick else 8):
             jobs.append({'meas': meas, 'N': N, 'ts': c, 'pres': pres})
     jobs.append({'meas': 'EDIT_DISTANCE', 'N': 32, 'ts': [0, 1, 2, 3, 4, 5], 'pres': pres, 'n_jobs': 1})
+    # left tables whose sizes do not overlap the admissible window of many right rows (index min/max clamps)
+    for lsizes in ([1, 2, 3], [20, 21], [7]):
+        for meas in PRUNED_MEASURES:
+            jobs.append({'meas': meas, 'N': 24, 'ts': [0.2, 0.3, 0.5, 0.75, 0.9], 'pres': pres, 'lsizes': lsizes, 'n_jobs': 2})
+        jobs.append({'meas': 'EDIT_DISTANCE', 'N': 24, 'ts': [0, 1, 3], 'pres': pres, 'lsizes': lsizes})
     Ls.append(Layer('size-tables', 'checks.c14:w_size_tables', jobs,
                     'SizeFilter.filter_tables on tables with one row per token count 1..%d x (TH_self u k/1000 u '
                     'p/q) x {JACCARD,COSINE,DICE}, EDIT_DISTANCE x 0..5: pairs whose best attainable similarity is '
@@ -276,6 +282,10 @@ def layers(tier):
         for t in ths:
             for nj in (1,):
                 jobs.append({'gen': {'gen': 'univ', 'K': Kt}, 'meas': meas, 't': t, 'pres': pres, 'n_jobs': nj})
+            # parallel path (the filters must rank tokens alike in every chunk) and allow_empty=False with
+            # tokenless rows on both sides
+            jobs.append({'gen': {'gen': 'univ', 'K': Kt - 1, 'order': 'rev'}, 'meas': meas, 't': t, 'pres': pres,
+                         'n_jobs': 2 + (len(jobs) % 2), 'ae': bool(len(jobs) % 3)})
             jobs.append({'gen': {'gen': 'univ', 'K': Kt - 1, 'Kr': Kt - 2, 'lwin': [1, Kt - 2]}, 'meas': meas,
                          't': t, 'pres': pres, 'ae': False})
     k, r = 3, 2
